@@ -72,7 +72,8 @@ struct CV { std::string key, what; };
 static void run_seq(int comp, int sink, const std::vector<Step>& steps, Result& R, std::vector<CV>& out) {
     std::string base = g_dir + "/c" + std::to_string(getpid()) + "_"; std::vector<std::string> names; std::vector<std::string> expect(1);
     const char* ext = comp == 1 ? ".gz" : ".xz"; uint64_t c0[5] = {g_gz_partial, g_gz_finish_more, g_xz_partial, g_xz_finish_more, g_gz_nothing};
-    auto newname = [&]() { std::string n = base + std::to_string(names.size()); names.push_back(n); return n; };
+    // output names: plain, with dots, already ending in the format's own suffix (the suffix is appended to whatever name was given)
+    auto newname = [&]() { static const char* TAIL[] = {"", ".cdns", ".gz", ".tar.xz", ".part"}; std::string n = base + std::to_string(names.size()) + TAIL[(names.size() + steps.size()) % 5]; names.push_back(n); return n; };
     auto opensink = [&](const std::string& n) { return open(n.c_str(), O_WRONLY | O_CREAT | O_TRUNC, 0600); };
     {
         std::unique_ptr<BaseCborOutputWriter> w; std::string n0 = newname();
